@@ -21,6 +21,11 @@ CLAIMED = {
          "For every (program, width) of the C07 space plus statement sequences with comments and 0..5 blank lines, every distinct formatter output is formatted again at the widths that produced it and must come back byte-identical; through format_blots (native shim) and `blots --format`.",
          "Second pass is run at the first and last width of each group of widths that share an output; same bounds as C07.",
          "DESIGN.md §4 C08"),
+ "C09": ("exploration",
+         "exhaustive enumeration of comment placements (single, pairs, triples, all) over line templates x widths; independent lexer-level comment scan",
+         "18 line templates covering every position the grammar admits a comment in (before/between/after statements, end of statement line, after list items / record entries on the same line, own line inside lists/records incl. before the closing bracket, inside do-blocks, before return, nested containers) plus the silent-NEWLINE and empty-container positions; the empty set, every single slot (also doubled), every pair (thorough: every triple) and all slots at once x every width 1..45/70 + default through format_blots (native shim) and through `blots --format`; the comment sequence of the output must equal the input's.",
+         "Two recorded known-finding classes (comments in silent NEWLINE positions, comments in empty containers) are matched by the harness's own placement kind and the exact observation 'only those comments are missing'; positions outside the templates are not explored.",
+         "DESIGN.md §4 C09"),
  "C10": ("exploration",
          "exhaustive enumeration of operator sequences, prefix/postfix combinations, layout-site choices and identifier shapes against a reference precedence-climbing parser",
          "All 676 operator pairs, 17576 triples, 6561 quadruples over level representatives and every prefix x postfix x operator combination are parsed in minimal and fully parenthesised form and compared with a precedence-climbing reference built from the property's table; every layout option at every grammar layout site (singly, pairwise, all at once) over every node kind / parent-child spine must leave the AST unchanged; every reserved word x every one-character prefix/suffix (plus compounds) is bound and referenced in 34 expression contexts.",
